@@ -106,7 +106,8 @@ class IASolverBaseClass:  # pylint: disable=R0902
         """
         out = np.empty(len(matrices), dtype=np.ndarray)
         for k, matrix in enumerate(matrices):
-            out[k] = matrix
+            # A copy: the caller may re-use its buffers afterwards
+            out[k] = np.array(matrix)
         return out
 
     def _clear_receive_filter(self) -> None:
@@ -251,7 +252,8 @@ class IASolverBaseClass:  # pylint: disable=R0902
         self._clear_precoder_filter()
 
         if P is not None:
-            self._P = P
+            # Validated and copied by the setter (the caller keeps its array)
+            self.P = P
 
         if full_F is not None:
             full_F = self._as_array_of_matrices(full_F)
